@@ -94,6 +94,26 @@ CHECKS.update({
             "DESIGN.md section 4 C19"),
 })
 
+CHECKS.update({
+    "C09": ("Hypothesis PBT: generated valid and invalid circuits / pairs / operator arguments; oracle = independent "
+            "set-based structural definitions deciding which calls must be refused and which structure a returned "
+            "circuit must have",
+            "Exploration: thousands of generated operands (non-smooth, non-decomposable, incompatible, wrong scopes, "
+            "bad orders / observations) per run: refusal with the documented exception is required exactly when the "
+            "independent definitions say the input is invalid, and every returned circuit is re-validated (smooth, "
+            "decomposable, scope, outputs, SD / compatibility of products, flags under conjugation); <= 5 variables.",
+            "Trusted: vlib/defs.py set-based definitions; the library's own flags are never used to decide validity.",
+            "DESIGN.md section 4 C09"),
+    "C11": ("Hypothesis PBT: generated compiled circuits x batches x per-sample marginalisation masks in every accepted "
+            "form; differential against brute-force / quadrature marginals of the numpy reference and against the "
+            "compiled symbolic integrate",
+            "Exploration: IntegrateQuery results are compared row by row with the marginal of the reference over "
+            "exactly that row's variables (bool masks, scopes, lists of scopes, empty scopes, out-of-scope variables "
+            "must raise ValueError), for every flag setting and batch classes incl. batch == fold count; <= 5 variables.",
+            "Trusted: vlib/ref.py, vlib/ops.py grids (input-wise exact marginal when the grid exceeds 40000 points).",
+            "DESIGN.md section 4 C11"),
+})
+
 NOT_APPLICABLE = {}
 
 
